@@ -1,5 +1,5 @@
 //! C01 / C04: the real `client_handler` (through the hook `verif_client_handler`) on a scripted socket.
-use crate::c02::{canon_request, hx, hxl};
+use crate::c02::{canon_request, hx, unhexz};
 use crate::common::*;
 use crate::httpgen::*;
 use humphrey::app::{verif_client_handler, verif_error_handler, ErrorHandler};
@@ -215,8 +215,62 @@ fn check_date(v: &[u8]) -> bool {
     (ts - now).abs() <= 5 && DAYS[((days + 4).rem_euclid(7)) as usize] == &s[0..3]
 }
 
+/// The event script: `,`-separated; `i` = a pause past the timeout; `d<hexz>` = one segment; `d<hexz>*<n>` = that segment
+/// `n` times; `b<hexz>` = these bytes one per segment; `s<n>:<hexz>` = these bytes in segments of `n` bytes
+/// (`hexz`: see `c02::unhexz`). The same grammar is read by `Driver/C01.lean::parseEvent` and by `hvt`.
+pub fn expand_events(s: &str) -> Option<VecDeque<Ev>> {
+    let mut events = VecDeque::new();
+    if s == "-" {
+        return Some(events);
+    }
+    for e in s.split(',') {
+        if e == "i" {
+            events.push_back(Ev::Idle);
+        } else if let Some(h) = e.strip_prefix('d') {
+            match h.split_once('*') {
+                None => events.push_back(Ev::Data(unhexz(h))),
+                Some((h, n)) => {
+                    let n: usize = n.parse().ok()?;
+                    if n > 1_000_000 { return None; }
+                    let b = unhexz(h);
+                    for _ in 0..n { events.push_back(Ev::Data(b.clone())); }
+                }
+            }
+        } else if let Some(h) = e.strip_prefix('b') {
+            for x in unhexz(h) { events.push_back(Ev::Data(vec![x])); }
+        } else if let Some(r) = e.strip_prefix('s') {
+            let (n, h) = r.split_once(':')?;
+            let n: usize = n.parse().ok()?;
+            let b = unhexz(h);
+            if n == 0 { events.push_back(Ev::Data(b)); } else { for c in b.chunks(n) { events.push_back(Ev::Data(c.to_vec())); } }
+        } else {
+            return None;
+        }
+    }
+    Some(events)
+}
+
+/// Run-length form of a list of rendered entries: a maximal run of n >= 2 equal consecutive entries `e` is written `e*n`
+/// (a long keep-alive session repeats the same response thousands of times). `Driver/Http.lean::rle` does the same.
+pub fn rle(v: &[String]) -> Vec<String> {
+    let mut out: Vec<String> = Vec::new();
+    let mut i = 0;
+    while i < v.len() {
+        let mut j = i + 1;
+        while j < v.len() && v[j] == v[i] { j += 1; }
+        out.push(if j - i == 1 { v[i].clone() } else { format!("{}*{}", v[i], j - i) });
+        i = j;
+    }
+    out
+}
+
 /// `conn <cfg> <timeout 0|1> <events> <peer ip|port> <ip oracle>`
 pub fn exec(f: &[String]) -> Option<String> {
+    exec_n(f).map(|(r, _)| r)
+}
+
+/// The canonical output and the number of writes (= responses).
+pub fn exec_n(f: &[String]) -> Option<(String, usize)> {
     if f[0] != "conn" || f.len() != 6 {
         return None;
     }
@@ -227,16 +281,7 @@ pub fn exec(f: &[String]) -> Option<String> {
     }
     let default = built.pop()?;
     let timeout = if f[2] == "1" { Some(Duration::from_millis(50)) } else { None };
-    let mut events = VecDeque::new();
-    if f[3] != "-" {
-        for e in f[3].split(',') {
-            if e == "i" {
-                events.push_back(Ev::Idle);
-            } else if let Some(h) = e.strip_prefix('d') {
-                events.push_back(Ev::Data(unhex(h)));
-            }
-        }
-    }
+    let events = expand_events(&f[3])?;
     let (ip, port) = f[4].split_once('|')?;
     let peer = SocketAddr::new(ip.parse().ok()?, port.parse().ok()?);
     let written = Arc::new(Mutex::new(Vec::new()));
@@ -259,13 +304,13 @@ pub fn exec(f: &[String]) -> Option<String> {
     let w: Vec<String> = written.lock().unwrap().iter().map(|x| hx(&normalise_date(x))).collect();
     let d: Vec<String> = DISPATCH.with(|d| d.borrow().clone());
     let ws = WS.with(|w| w.borrow().clone());
-    Some(format!(
+    Some((format!(
         "W[{}] D[{}] WS[{}] X[{}]",
-        w.join(";"),
-        d.join(";"),
+        rle(&w).join(";"),
+        rle(&d).join(";"),
         ws.unwrap_or_else(|| "-".into()),
         if r.is_ok() { "end" } else { "panic" }
-    ))
+    ), w.len()))
 }
 
 // ---------------------------------------------------------------------------------------------
@@ -341,6 +386,12 @@ pub fn tokio_conn_cases(out: &mut Out) {
 }
 
 pub fn emit_conn(out: &mut Out, cfg: &str, timeout: bool, events: &[String], peer: (&str, u16), all_bytes: &[u8], tag: &str, nontrivial: bool) {
+    emit_conn_ex(out, cfg, timeout, events, peer, all_bytes, tag, nontrivial, None)
+}
+
+/// `tokio`: `Some(true)` = also repeat this connection on the tokio runtime, `Some(false)` = never, `None` = the share
+/// chosen by `TOKIO_EVERY` among the connections that qualify.
+pub fn emit_conn_ex(out: &mut Out, cfg: &str, timeout: bool, events: &[String], peer: (&str, u16), all_bytes: &[u8], tag: &str, nontrivial: bool, tokio: Option<bool>) {
     let f = vec![
         "conn".to_string(),
         cfg.to_string(),
@@ -349,8 +400,7 @@ pub fn emit_conn(out: &mut Out, cfg: &str, timeout: bool, events: &[String], pee
         format!("{}|{}", peer.0, peer.1),
         ip_oracle(all_bytes),
     ];
-    let r = exec(&f).unwrap_or_else(|| "UNSUPPORTED".into());
-    let nresp = r.split("] D[").next().map(|w| if w == "W[" { 0 } else { w.matches(';').count() + 1 }).unwrap_or(0);
+    let (r, nresp) = exec_n(&f).unwrap_or_else(|| ("UNSUPPORTED".into(), 0));
     // a share of the plain connections (no timeout, no idle gap, no upgrade) is repeated on the tokio runtime, over a real
     // socket. Only streams the server reads to the end qualify (every request answered, or all but a panicking last one):
     // when a server closes a socket with unread bytes in it the kernel answers with RST, and what the CLIENT then still
@@ -358,11 +408,13 @@ pub fn emit_conn(out: &mut Out, cfg: &str, timeout: bool, events: &[String], pee
     let every = TOKIO_EVERY.with(|e| e.get());
     let nreq = NREQ.with(|n| n.get());
     let read_to_end = nresp == nreq || (r.ends_with("X[panic]") && nresp + 1 == nreq);
-    if every > 0 && !timeout && read_to_end && tag != "idle" && tag != "pause-inside" && tag != "ws" && tag != "split" && tag != "bytewise" {
+    if tokio == Some(true) {
+        if !timeout && read_to_end { TOKIO_INPUTS.with(|t| t.borrow_mut().push(f.clone())); }
+    } else if tokio.is_none() && every > 0 && !timeout && read_to_end && tag != "idle" && tag != "pause-inside" && tag != "ws" && tag != "split" && tag != "bytewise" {
         let n = TOKIO_COUNTER.with(|c| { c.set(c.get() + 1); c.get() });
         if n % every == 0 { TOKIO_INPUTS.with(|t| t.borrow_mut().push(f.clone())); }
     }
-    out.count(&format!("{}:responses={}", tag, nresp.min(7)));
+    out.count(&format!("{}:responses={}", tag, match nresp { 0..=7 => nresp.to_string(), 8..=99 => "8-99".into(), 100..=999 => "100-999".into(), _ => "1000+".into() }));
     if r.ends_with("X[panic]") { out.count("handler-panic"); }
     let fr: Vec<&str> = f.iter().map(|s| s.as_str()).collect();
     out.case(&fr, &r, nontrivial);
@@ -410,6 +462,11 @@ pub fn gen(out: &mut Out, thorough: bool, seed: u64) {
     TOKIO_EVERY.with(|e| e.set(if thorough { 4 } else { 8 }));
     let mut rng = Rng::new(seed ^ 0xC01);
     let cfg = c01_app();
+    // The long sessions come FIRST, longest first: the model's cost per case grows with the square of the session length
+    // (seconds per case), and ./check deals the lines of the case file round-robin to parallel drivers through `split`,
+    // which hands each driver the last buffer-full of its share only when it closes that driver's pipe, one driver after
+    // the other — slow lines at the end of the file would be judged one at a time, at the start they run side by side.
+    long_sessions(out, &cfg, thorough, seed);
     let n = if thorough { 60_000 } else { 3_000 };
     for _ in 0..n {
         let nreq = rng.range(1, 6);
@@ -481,5 +538,177 @@ pub fn gen(out: &mut Out, thorough: bool, seed: u64) {
         let b = format!("GET {} HTTP/1.1\r\n{}Upgrade: websocket\r\nConnection: Upgrade\r\n\r\n", t, host).into_bytes();
         emit_conn(out, &cfg, false, &[format!("d{}", hex(&b))], ("127.0.0.1", 40000), &b, "ws", true);
     }
+    large_requests(out, &cfg, thorough, seed);
     tokio_conn_cases(out);
+}
+
+/// Well-formed keep-alive requests of eight kinds (the blocks of the long sessions are runs of one of them).
+const KA: &[&[u8]] = &[
+        b"GET /hello HTTP/1.1\r\nConnection: keep-alive\r\n\r\n",
+        b"GET /nope HTTP/1.1\r\nConnection: Keep-Alive\r\n\r\n",
+        b"OPTIONS /cors/x HTTP/1.1\r\nconnection: keep-alive\r\n\r\n",
+        b"POST /echo HTTP/1.1\r\nConnection: keep-alive\r\nContent-Length: 3\r\n\r\nabc",
+        b"GET /empty HTTP/1.0\r\nConnection: keep-alive\r\n\r\n",
+        b"PUT /h/1 HTTP/1.1\r\nHost: a.example.com\r\nConnection: KEEP-ALIVE\r\nContent-Length: 0\r\n\r\n",
+        b"DELETE /wild/a/b?q=1 HTTP/1.1\r\nConnection: keep-alive\r\n\r\n",
+        b"OPTIONS /nope HTTP/1.1\r\nConnection: keep-alive\r\n\r\n",
+    ];
+/// What follows the last keep-alive request: nothing (the client leaves), a closing request, a request without a
+/// Connection field, a malformed one (400), a panicking handler.
+const LAST: &[&[u8]] = &[
+        b"",
+        b"GET /hello HTTP/1.1\r\nConnection: close\r\n\r\n",
+        b"GET /cors/y HTTP/1.1\r\n\r\n",
+        b"BREW / HTTP/1.1\r\nConnection: keep-alive\r\n\r\n",
+        b"GET /panic HTTP/1.1\r\nConnection: keep-alive\r\n\r\n",
+];
+
+/// Histories "well above small": long keep-alive sessions (hundreds to thousands of requests on ONE connection) made of
+/// blocks of identical well-formed keep-alive requests. Runs of identical requests are written in the compact forms of
+/// `expand_events` / `unhexz`, the responses come back run-length encoded, so the case lines stay small.
+fn long_sessions(out: &mut Out, cfg: &str, thorough: bool, seed: u64) {
+    let mut rng = Rng::new(seed ^ 0xC01_B16);
+    let peer = ("127.0.0.1", 40000u16);
+    let lengths: Vec<usize> = if thorough {
+        vec![63, 64, 65, 99, 100, 101, 127, 128, 129, 199, 200, 201, 255, 256, 257, 300, 384, 500, 511, 512, 513, 767, 768, 999, 1000,
+             1001, 1023, 1024, 1025, 1500, 2047, 2048, 2049, 3000, 4095, 4096, 4097, 5000, 8193]
+    } else {
+        vec![99, 100, 101, 127, 128, 129, 255, 256, 257, 300, 511, 512, 513, 1000, 1023, 1024, 1025, 2049]
+    };
+    // (the model's connection loop measures what is left of the stream once per request, so its cost grows with the square of
+    // the session length: about 1 s per case at 1 000 requests, 4 s at 2 000, 15 s at 4 000 — hence the tiers)
+    let tokio_lengths: &[usize] = if thorough { &[100, 101, 129, 257, 513, 1001, 1025, 2049, 4097] } else { &[101, 257, 1025] };
+    for (li, n) in lengths.iter().enumerate().rev() {
+        let n = *n;
+        let variants = if thorough && n <= 1100 { 3 } else { 1 };
+        for v in 0..variants {
+            // 1..3 blocks; the total number of keep-alive requests is n
+            let nblocks = if v == 0 { 1 + li % 3 } else { rng.range(1, 3) as usize };
+            let mut left = n;
+            let mut blocks: Vec<(&[u8], usize)> = Vec::new();
+            for b in 0..nblocks {
+                let k = if b + 1 == nblocks { left } else { rng.range(1, (left - (nblocks - 1 - b)) as u64) as usize };
+                blocks.push((KA[rng.below(KA.len() as u64) as usize], k));
+                left -= k;
+            }
+            let last = LAST[if v == 0 { li % LAST.len() } else { rng.below(LAST.len() as u64) as usize }];
+            NREQ.with(|c| c.set(n + if last.is_empty() { 0 } else { 1 }));
+            // the stream in compact form, and (for the forwarded-address oracle only) one copy of each distinct request
+            let mut enc: Vec<String> = blocks.iter().map(|(t, k)| format!("Y{}.{}", k, hex(t))).collect();
+            if !last.is_empty() { enc.push(hex(last)); }
+            let enc = enc.join("_");
+            let sample: Vec<u8> = blocks.iter().flat_map(|(t, _)| t.to_vec()).chain(last.to_vec()).collect();
+            let tk = if tokio_lengths.contains(&n) && v == 0 { Some(true) } else { Some(false) };
+            // (a) one request per segment
+            let mut ev: Vec<String> = blocks.iter().map(|(t, k)| format!("d{}*{}", hex(t), k)).collect();
+            if !last.is_empty() { ev.push(format!("d{}", hex(last))); }
+            emit_conn_ex(out, cfg, false, &ev, peer, &sample, "long:per-request", true, tk);
+            // (b) the whole session in ONE segment
+            let with_timeout = rng.chance(1, 2) && tk != Some(true);
+            emit_conn_ex(out, cfg, with_timeout, &[format!("d{}", enc)], peer, &sample, "long:coalesced", true, tk);
+            if n > 5000 { continue; }
+            // (c) segments of a fixed size that is unrelated to the request boundaries
+            // (tiny segments only on the scripted socket: on the real one every segment costs a pause)
+            let k = *rng.pick(if tk == Some(true) { &[536usize, 1460, 4096, 65536][..] } else { &[7usize, 100, 536, 1460, 4096, 65536][..] });
+            emit_conn_ex(out, cfg, false, &[format!("s{}:{}", k, enc)], peer, &sample, "long:fixed-size-segments", true, tk);
+            // (d) one byte per segment
+            if n <= 300 && (thorough || li % 4 == 1) || (thorough && n <= 1100 && v == 0) {
+                emit_conn_ex(out, cfg, false, &[format!("b{}", enc)], peer, &sample, "long:bytewise", true, Some(false));
+            }
+            // (e) a timeout is configured and the client idles past it after the whole session, or after the first block:
+            // 408 then, and not earlier
+            let mut ev_idle = ev.clone();
+            if v % 2 == 0 && li % 2 == 0 { ev_idle.push("i".into()); } else { ev_idle.insert(1.min(ev_idle.len()), "i".into()); }
+            emit_conn_ex(out, cfg, true, &ev_idle, peer, &sample, "long:idle", true, Some(false));
+        }
+    }
+}
+
+/// Sizes and counts "well above small": sessions of a few hundred VARIED requests, bodies around 64 KiB / 256 KiB / 1 MiB
+/// (a pattern, `Z<len>.<seed>` in the case line), requests with hundreds of field lines.
+fn large_requests(out: &mut Out, cfg: &str, thorough: bool, seed: u64) {
+    let mut rng = Rng::new(seed ^ 0xC01_B17);
+    let peer = ("127.0.0.1", 40000u16);
+    // ---- (2) long sessions of VARIED requests (methods, targets, versions, bodies, hosts), all well-formed and keep-alive
+    let sessions = if thorough { 40 } else { 4 };
+    for si in 0..sessions {
+        let n = *rng.pick(&[100usize, 101, 128, 129, 150, 200, 256, 257, 300, 400]);
+        let mut reqs: Vec<Vec<u8>> = Vec::new();
+        while reqs.len() < n {
+            let (b, wf, ka) = c01_request(&mut rng);
+            if wf && ka && !b.windows(6).any(|w| w == b"/panic") { reqs.push(b); }
+        }
+        if si % 2 == 0 { reqs.push(LAST[1 + si / 2 % 4].to_vec()); }
+        let all: Vec<u8> = reqs.concat();
+        NREQ.with(|c| c.set(reqs.len()));
+        let ev: Vec<String> = reqs.iter().map(|r| format!("d{}", hex(r))).collect();
+        emit_conn_ex(out, cfg, false, &ev, peer, &all, "long-varied:per-request", true, Some(si < 2 || thorough && si < 8));
+        emit_conn_ex(out, cfg, rng.chance(1, 2), &[format!("d{}", hex(&all))], peer, &all, "long-varied:coalesced", true, Some(si >= 2 && si < 4));
+        let chunks = apply_cuts(&all, &random_cuts(&mut rng, all.len()));
+        let ev: Vec<String> = chunks.iter().map(|c| format!("d{}", hex(c))).collect();
+        emit_conn_ex(out, cfg, false, &ev, peer, &all, "long-varied:random", true, Some(false));
+        emit_conn_ex(out, cfg, false, &[format!("s{}:{}", rng.pick(&[3usize, 64, 1000, 1460]), hex(&all))], peer, &all, "long-varied:fixed-size-segments", true, Some(false));
+    }
+    // ---- (3) one request with a LARGE Content-Length body (a pattern, `Z<len>.<seed>`), then a second request: the body must
+    // be taken whole, never interpreted, and the next request answered
+    let sizes: Vec<usize> = if thorough {
+        vec![65_535, 65_536, 65_537, 100_000, 131_072, 131_073, 262_143, 262_144, 262_145, 300_017, 524_288, 524_289, 1_000_000, 1_048_575,
+             1_048_576, 1_048_577, 2_097_153, 4_194_305]
+    } else {
+        vec![65_536, 65_537, 262_144, 262_145, 300_017, 1_048_577]
+    };
+    for (i, n) in sizes.iter().enumerate() {
+        let n = *n;
+        let bseed = rng.next() as u32;
+        // targets whose answer is small, and the echoing route for the sizes whose answer still fits a case line
+        let mut targets = vec![*rng.pick(&["/hello", "/nope", "/empty", "/cors/x"])];
+        if n <= 70_000 || (thorough && n <= 300_000 && n % 2 == 1) { targets.push("/echo"); }
+        for target in targets {
+            let head = format!("{} {} HTTP/1.1\r\n{}: keep-alive\r\nContent-Length: {}\r\n\r\n", rng.pick(&["POST", "PUT"]), target, rng.pick(&["Connection", "connection"]), n).into_bytes();
+            let next: &[u8] = LAST[1 + i % 2];
+            let body = format!("Z{}.{}", n, bseed);
+            let sample: Vec<u8> = head.iter().chain(next.iter()).cloned().collect();
+            NREQ.with(|c| c.set(2));
+            let tk = Some(i % 2 == 1 || thorough);
+            // everything in one segment
+            emit_conn_ex(out, cfg, false, &[format!("d{}_{}_{}", hex(&head), body, hex(next))], peer, &sample, "body:one-segment", true, tk);
+            // head, body, next request each in its own segment
+            emit_conn_ex(out, cfg, rng.chance(1, 2), &[format!("d{}", hex(&head)), format!("d{}", body), format!("d{}", hex(next))], peer, &sample, "body:head|body|next", true, Some(false));
+            // MSS-sized / buffer-sized segments over the whole stream
+            let k = *rng.pick(&[1460usize, 4096, 8192, 65_536, 262_144]);
+            emit_conn_ex(out, cfg, false, &[format!("s{}:{}_{}_{}", k, hex(&head), body, hex(next))], peer, &sample, "body:fixed-size-segments", true, tk);
+            // the head together with the first bytes of the body, then the rest in large pieces, then the next request
+            // together with the last bytes of the body
+            let first = rng.range(1, 3000) as usize;
+            let mut bytes = crate::c02::pat_bytes(n, bseed);
+            let tail = bytes.split_off(n - 17);
+            let rest = bytes.split_off(first);
+            let mut ev = vec![format!("d{}{}", hex(&head), hex(&bytes))];
+            // (the middle of the body is not a pattern prefix any more: it goes in plain hex, in 64 KiB pieces, for the smaller
+            // sizes only; the larger ones pause INSIDE the body instead, with the timeout armed)
+            if n <= 70_000 {
+                for c in rest.chunks(65_536) { ev.push(format!("d{}", hex(c))); }
+                ev.push(format!("d{}{}", hex(&tail), hex(next)));
+                emit_conn_ex(out, cfg, false, &ev, peer, &sample, "body:straddling-segments", true, Some(false));
+            } else {
+                let ev = vec![format!("d{}", hex(&head)), "i".to_string(), format!("s{}:{}", 131_072, body), "i".to_string(), format!("d{}", hex(next))];
+                emit_conn_ex(out, cfg, true, &ev, peer, &sample, "body:pause-inside", true, Some(false));
+            }
+        }
+    }
+    // ---- (4) the NUMBER of field lines of a request inside a session
+    let counts: &[usize] = if thorough { &[31, 32, 33, 64, 65, 100, 127, 128, 129, 255, 256, 257, 500, 1000, 1024, 2048] } else { &[64, 100, 128, 257, 1000] };
+    for (i, n) in counts.iter().enumerate() {
+        let mut req = format!("GET {} HTTP/1.1\r\n", rng.pick(&["/hello", "/cors/x", "/nope"])).into_bytes();
+        let at = rng.below(*n as u64 + 1) as usize;
+        for j in 0..=*n {
+            if j == at { req.extend(b"Connection: keep-alive\r\n"); }
+            if j < *n { req.extend(format!("{}: v{}\r\n", if i % 2 == 0 { format!("X-N-{}", j) } else { "X-Same".to_string() }, j).as_bytes()); }
+        }
+        req.extend(b"\r\n");
+        let all: Vec<u8> = req.iter().chain(KA[0].iter()).chain(LAST[1].iter()).cloned().collect();
+        NREQ.with(|c| c.set(3));
+        emit_conn_ex(out, cfg, false, &[format!("d{}", hex(&all))], peer, &all, "fields:coalesced", true, Some(true));
+        emit_conn_ex(out, cfg, false, &[format!("s{}:{}", rng.pick(&[5usize, 100, 1460]), hex(&all))], peer, &all, "fields:fixed-size-segments", true, Some(false));
+    }
 }
